@@ -30,6 +30,38 @@ type Buffer struct {
 	Body   ast.Node // body of the analysed function (for resolving locals)
 	Obj    types.Object
 	Length lin.Form // the buffer's length as a linear form (make size, or the atom len(b))
+	Files  []*ast.File
+	lenKey string // the lin key of the atom len(<buffer>) when Length is another form (the make size)
+}
+
+// of is lin.Of with the atom len(<buffer>) replaced by the buffer's known
+// length: for b := make([]byte, n+2), `b[len(b)-2]` and `b[n]` are the same byte.
+func (b *Buffer) of(e ast.Expr) lin.Form {
+	f := lin.Of(b.Info, e)
+	c, has := f.Coef[b.lenKey]
+	if b.lenKey == "" || !has {
+		return f
+	}
+	out := lin.Form{Coef: map[string]int64{}, Const: f.Const + c*b.Length.Const}
+	for a, v := range f.Coef {
+		if a != b.lenKey {
+			out.Coef[a] += v
+		}
+	}
+	for a, v := range b.Length.Coef {
+		out.Coef[a] += c * v
+		if out.Coef[a] == 0 {
+			delete(out.Coef, a)
+		}
+	}
+	return out
+}
+
+// WithFiles: the files of the package (optional) let the buffer read package-level variables
+// that are never written as the constants they are.
+func (b *Buffer) WithFiles(files []*ast.File) *Buffer {
+	b.Files = files
+	return b
 }
 
 // NewBuffer tracks obj; size is the length expression of its allocation when known (nil: the atom len(obj)).
@@ -37,6 +69,18 @@ func NewBuffer(info *types.Info, body ast.Node, obj types.Object, size ast.Expr)
 	b := &Buffer{Info: info, Body: body, Obj: obj}
 	if size != nil {
 		b.Length = lin.Of(info, size)
+		// no write to the variable other than its allocation: len(b) is the size throughout
+		if Assignments(info, body, obj) == 1 {
+			core.InspectAll(body, func(m ast.Node) bool {
+				if e, ok := m.(ast.Expr); ok && b.lenKey == "" && b.isLenCall(e) {
+					b.lenKey = lin.Key(info, e)
+				}
+				return b.lenKey == ""
+			})
+			if _, self := b.Length.Coef[b.lenKey]; self {
+				b.lenKey = ""
+			}
+		}
 		return b
 	}
 	// the atom len(b): taken from the source so that it has the key lin gives to the source's own len(b)
@@ -90,8 +134,99 @@ func (b *Buffer) constBytes(e ast.Expr) ([]byte, bool) {
 		if d := Resolve(info, b.Body, x); d != ast.Expr(x) {
 			return b.constBytes(d)
 		}
+		if init := PackageInit(info, b.Files, core.ObjOf(info, x)); init != nil {
+			return b.constBytes(init)
+		}
 	}
 	return nil, false
+}
+
+// PackageInit returns the initialiser of a package-level variable that is only
+// ever read in the given files of its package: never assigned, never written
+// through an index, never appended to in place, its address never taken. Such a
+// variable is a named constant (`var crlf = []byte("\r\n")`).
+func PackageInit(info *types.Info, files []*ast.File, o types.Object) ast.Expr {
+	v, ok := o.(*types.Var)
+	if !ok || v.IsField() || v.Pkg() == nil || v.Parent() != v.Pkg().Scope() || len(files) == 0 {
+		return nil
+	}
+	var init ast.Expr
+	written := false
+	is := func(e ast.Expr) bool {
+		for {
+			switch x := ast.Unparen(e).(type) {
+			case *ast.IndexExpr:
+				e = x.X
+				continue
+			case *ast.SliceExpr:
+				e = x.X
+				continue
+			case *ast.Ident:
+				return core.ObjOf(info, x) == o
+			}
+			return false
+		}
+	}
+	for _, f := range files {
+		core.InspectAll(f, func(n ast.Node) bool {
+			switch x := n.(type) {
+			case *ast.ValueSpec:
+				for i, nm := range x.Names {
+					if info.Defs[nm] == o && len(x.Values) == len(x.Names) {
+						init = x.Values[i]
+					}
+				}
+			case *ast.AssignStmt:
+				for _, l := range x.Lhs {
+					if is(l) {
+						written = true
+					}
+				}
+			case *ast.IncDecStmt:
+				if is(x.X) {
+					written = true
+				}
+			case *ast.UnaryExpr:
+				if x.Op == token.AND && is(x.X) {
+					written = true
+				}
+			case *ast.RangeStmt:
+				if x.Key != nil && is(x.Key) || x.Value != nil && is(x.Value) {
+					written = true
+				}
+			case *ast.CallExpr:
+				// copy(v, ..) and append(v[:k], ..) write into v's array
+				if (IsBuiltin(info, x, "copy") || IsBuiltin(info, x, "append")) && len(x.Args) > 0 && is(x.Args[0]) {
+					if _, plain := ast.Unparen(x.Args[0]).(*ast.Ident); !plain || IsBuiltin(info, x, "copy") {
+						written = true
+					}
+				}
+				// handed to code that is not known to leave it alone
+				for _, a := range x.Args {
+					if !is(a) {
+						continue
+					}
+					if tv, isConv := info.Types[x.Fun]; isConv && tv.IsType() {
+						continue
+					}
+					if IsBuiltin(info, x, "len") || IsBuiltin(info, x, "cap") || IsBuiltin(info, x, "append") || IsBuiltin(info, x, "copy") {
+						continue
+					}
+					if f := core.CalleeFunc(info, x); f != nil && f.Pkg() != nil {
+						if p := f.Pkg().Path(); p == "bytes" || p == "strings" || f.Name() == "Write" {
+							continue
+						}
+					}
+					written = true
+				}
+			}
+			return true
+		})
+	}
+	if written {
+		return nil
+	}
+	return init
 }
 
 // window: e is the buffer or a slice of it (possibly converted to string);
@@ -116,7 +251,7 @@ func (b *Buffer) window(e ast.Expr) (lo lin.Form, whole, ok bool) {
 	if se, isSlice := e.(*ast.SliceExpr); isSlice && IsObj(info, b.Obj)(se.X) && se.Max == nil {
 		lo = lin.Form{Coef: map[string]int64{}}
 		if se.Low != nil {
-			lo = lin.Of(info, se.Low)
+			lo = b.of(se.Low)
 		}
 		return lo, se.High == nil, true
 	}
@@ -161,7 +296,7 @@ func (b *Buffer) facts(f cfgq.Fact) (bytes []byteAt, minLen int64, understood bo
 			if ix, isIdx := ast.Unparen(p[0]).(*ast.IndexExpr); isIdx && IsObj(info, b.Obj)(ix.X) {
 				if c, isC := core.IntConst(info, p[1]); isC {
 					if op == token.EQL {
-						bytes = append(bytes, byteAt{lin.Of(info, ix.Index), c})
+						bytes = append(bytes, byteAt{b.of(ix.Index), c})
 					}
 					return bytes, minLen, true
 				}
@@ -276,8 +411,8 @@ func (b *Buffer) LenIs(k int64) func(cfgq.Fact) bool {
 
 // ConstBytes reports the constant byte string an expression denotes
 // (`"..."`, `[]byte("...")`, `[]byte{'a', 'b'}`, or a local defined as one).
-func ConstBytes(info *types.Info, body ast.Node, e ast.Expr) ([]byte, bool) {
-	return (&Buffer{Info: info, Body: body}).constBytes(e)
+func ConstBytes(info *types.Info, body ast.Node, e ast.Expr, files ...*ast.File) ([]byte, bool) {
+	return (&Buffer{Info: info, Body: body, Files: files}).constBytes(e)
 }
 
 // CountingLoop recognises `for i := 0; i < BOUND; i++` (any spelling of the
@@ -345,4 +480,135 @@ func LenForm(info *types.Info, obj types.Object) lin.Form {
 	id := ast.NewIdent(obj.Name())
 	info.Uses[id] = obj
 	return lin.Of(info, &ast.CallExpr{Fun: ln, Args: []ast.Expr{id}})
+}
+
+// CountingCFG recognises, on the graph alone (whatever statements spell it: a
+// for statement, `goto` back to a label, a loop with the test in its body),
+// that the node at `use` runs once for each i = 0, 1, 2, .. below one of the
+// bounds: idx is only ever set to zero and incremented by one; no path reaches
+// the use without a zeroing; since its last assignment the use is behind an
+// edge that says idx < bound; between two runs of the use idx is incremented,
+// and it is not incremented twice without a run in between.
+func CountingCFG(g *cfgq.Graph, use cfgq.Point, idx types.Object, bounds ...lin.Form) bool {
+	info := g.Info
+	if idx == nil {
+		return false
+	}
+	isIdx := IsObj(info, idx)
+	one := func(e ast.Expr) bool { k, ok := core.IntConst(info, e); return ok && k == 1 }
+	isInit := func(n ast.Node) bool {
+		switch s := n.(type) {
+		case *ast.AssignStmt:
+			if len(s.Lhs) == len(s.Rhs) && (s.Tok == token.ASSIGN || s.Tok == token.DEFINE) {
+				for i, l := range s.Lhs {
+					if isIdx(l) {
+						k, ok := core.IntConst(info, s.Rhs[i])
+						return ok && k == 0
+					}
+				}
+			}
+		case *ast.ValueSpec:
+			for i, nm := range s.Names {
+				if info.Defs[nm] == idx {
+					if len(s.Values) == 0 {
+						return true
+					}
+					if len(s.Values) == len(s.Names) {
+						k, ok := core.IntConst(info, s.Values[i])
+						return ok && k == 0
+					}
+				}
+			}
+		}
+		return false
+	}
+	isInc := func(n ast.Node) bool {
+		switch s := n.(type) {
+		case *ast.IncDecStmt:
+			return s.Tok == token.INC && isIdx(s.X)
+		case *ast.AssignStmt:
+			if len(s.Lhs) != 1 || len(s.Rhs) != 1 || !isIdx(s.Lhs[0]) {
+				return false
+			}
+			if s.Tok == token.ADD_ASSIGN {
+				return one(s.Rhs[0])
+			}
+			if s.Tok == token.ASSIGN {
+				if b, ok := ast.Unparen(s.Rhs[0]).(*ast.BinaryExpr); ok && b.Op == token.ADD {
+					return isIdx(b.X) && one(b.Y) || isIdx(b.Y) && one(b.X)
+				}
+			}
+		}
+		return false
+	}
+	isDef := func(n ast.Node) bool {
+		switch s := n.(type) {
+		case *ast.AssignStmt:
+			for _, l := range s.Lhs {
+				if isIdx(l) {
+					return true
+				}
+			}
+		case *ast.IncDecStmt:
+			return isIdx(s.X)
+		case *ast.RangeStmt:
+			return s.Key != nil && isIdx(s.Key) || s.Value != nil && isIdx(s.Value)
+		case *ast.ValueSpec:
+			for _, nm := range s.Names {
+				if info.Defs[nm] == idx {
+					return true
+				}
+			}
+		}
+		return false
+	}
+	defs := g.Points(isDef)
+	if len(defs) == 0 {
+		return false
+	}
+	for _, p := range defs {
+		if !isInit(p.Node()) && !isInc(p.Node()) {
+			return false
+		}
+	}
+	target := use.Node()
+	hit := func(n ast.Node) bool { return n == target }
+	if g.Path(cfgq.Query{From: g.Entry(), Avoid: isInit, Target: hit}) != nil && !isInit(g.Entry().Node()) {
+		return false
+	}
+	iid := ast.NewIdent(idx.Name())
+	info.Uses[iid] = idx
+	iform := lin.Of(info, iid)
+	below := func(f cfgq.Fact) bool {
+		for _, bd := range bounds {
+			w := lin.Form{Coef: map[string]int64{}, Const: iform.Const - bd.Const}
+			for k, v := range iform.Coef {
+				w.Coef[k] += v
+			}
+			for k, v := range bd.Coef {
+				w.Coef[k] -= v
+				if w.Coef[k] == 0 {
+					delete(w.Coef, k)
+				}
+			}
+			if LinIs(info, f, w, token.LSS, 0) {
+				return true
+			}
+		}
+		return false
+	}
+	for _, p := range defs {
+		if g.Path(cfgq.Query{From: p, After: true, Avoid: isDef, AvoidEdge: Establishes(g, below), Target: hit}) != nil {
+			return false
+		}
+	}
+	if g.Path(cfgq.Query{From: use, After: true, Avoid: isDef, Target: hit}) != nil {
+		return false // the use runs again without the index having moved
+	}
+	for _, p := range g.Points(isInc) {
+		if g.Path(cfgq.Query{From: p, After: true, Avoid: func(n ast.Node) bool { return n == target || isInit(n) }, Target: isInc}) != nil {
+			return false // two increments without a run of the use in between
+		}
+	}
+	return true
 }
